@@ -222,6 +222,7 @@ func c11b(c *Ctx, a *absVariant) {
 		})
 		r.Check(okJoin && okOne, "C11-b", "T.errList.Error:joins-in-order", vn, v.Where(le.Pos()), "every entry's message, in list order", fmt.Sprintf("joins-all=%t single-entry=%t", okJoin, okOne))
 	}
+	errAlwaysRecorded(c, v, "C11-b")
 	// addErr forwards at the current position
 	if ae := v.Func("parser", "addErr"); ae != nil {
 		ok := false
@@ -431,4 +432,46 @@ func c11cde(c *Ctx, v *variants.Variant) {
 		}
 	}
 	r.Check(def && strings.Join(ws, ",") == "Recover", "C11-e", "T.parser.recover:default-and-writers", vn, "builder/static_code.go", "default true; assigned only by the Recover option", fmt.Sprintf("default-true=%t writers=%v", def, ws))
+}
+
+// errAlwaysRecorded: every error handed to addErr / addErrAt reaches the list - addErr calls addErrAt and addErrAt
+// calls p.errs.add on every path, under no condition (the de-duplication documented for the result happens in
+// errList.dedupe, by message, when the list is returned; dropping at record time loses errors whose message differs,
+// e.g. the MaxExpressions error raised at a position that already reported something else).
+func errAlwaysRecorded(c *Ctx, v *variants.Variant, rule string) {
+	r := c.R
+	for _, spec := range []struct{ fn, callee string }{{"addErr", "addErrAt"}, {"addErrAt", "add"}} {
+		fd := v.Func("parser", spec.fn)
+		if fd == nil || fd.Body == nil {
+			r.Fatal("variant %s: %s missing", v.Name, spec.fn)
+			continue
+		}
+		errP := firstParam(fd)
+		var bad []string
+		paths := enumPaths(fd.Body)
+		if paths == nil {
+			r.Unk(rule, "T."+spec.fn+":records-every-error", v.Name, v.Where(fd.Pos()), "too many paths")
+			continue
+		}
+		for _, p := range paths {
+			n := 0
+			for _, e := range p {
+				if ce, ok := e.Node.(*ast.CallExpr); ok && e.Kind == "call" && callSel(ce) == spec.callee {
+					if spec.callee == "add" && nospace(ce.Fun) != "p.errs.add" {
+						continue
+					}
+					if spec.callee == "addErrAt" && (len(ce.Args) == 0 || nospace(ce.Args[0]) != errP) {
+						continue
+					}
+					n++
+				}
+			}
+			if n != 1 {
+				// conditions that only select how the prefix is rendered are fine; a path that records nothing is not
+				bad = append(bad, fmt.Sprintf("the path [%s] records the error %d times", strings.Join(p.guards(), " "), n))
+			}
+		}
+		sort.Strings(bad)
+		r.Check(len(bad) == 0, rule, "T."+spec.fn+":records-every-error", v.Name, v.Where(fd.Pos()), fmt.Sprintf("%d paths, each hands the error on exactly once", len(paths)), strings.Join(uniq(bad), "; ")+": an error returned by a code block, an invalid-encoding error or the MaxExpressions error can be lost")
+	}
 }
